@@ -3,9 +3,14 @@
   descriptors regenerated from /repo's .tl files (SH.Gen.C14), and on the frame model.
 
     dec <schema/name> bare|boxed <hex>      → ok rest=<n> re=<hex of re-encoding> | err
+    decb <schema/name> bare|boxed <hex>     → as dec; the Go observation comes from the []byte variant of the type
     decn <schema/name> bare|boxed <hex>     → ok rest=<n> | err   (inputs the Go reader canonicalises through a map:
                                               unsorted / duplicate dictionary keys; the model keeps the vector)
     res <schema/name> <hex request, bare> <hex result>   → the same, for the function's result type
+    tl2 <schema/name> <hex>                 → ok rest=<n> re=<hex of TL2 re-encoding> | err   (SH.Model.TL2 on the same descriptor)
+    tl2n <schema/name> <hex>                → ok rest=<n> | err   (mutants a Go map canonicalises: verdict and length only)
+    tl2b <schema/name> <hex>                → as tl2; the Go observation comes from the []byte variant
+    tl2x <schema/name> <hex TL2> <hex TL1>  → same | differ | err   (both encodings decode to the same model value)
     tl2size <n> <hex tail>                  → <hex TL2WriteSize n> calc=<k> parse=<ok n rest=k | err>
     tl2parse <hex>                          → ok <n> rest=<k> | err
     tl2str <len> <fill byte> <hex tail>     → head=<first 12 bytes> total=<n> read=<ok len=… rest=… same=… | err>
@@ -14,6 +19,7 @@
 -/
 import Driver.Common
 import SH.Model.TL
+import SH.Model.TL2
 import SH.Gen.C14
 
 open SH SH.TL
@@ -85,9 +91,29 @@ def tl2strObs (len fill : Nat) (tail : Bytes) : String :=
     | some (b', rest) => s!"ok len={b'.length} rest={rest.length} same={b' == b}"
   s!"head={showHex (w.take 12)} total={w.length} read={rd}"
 
+def tl2Obs (d : Desc) (b : Bytes) : String :=
+  if !tl2Supported d then "bad-op tl2-unsupported-descriptor" else
+  match decE d b with
+  | none => "err"
+  | some (v, rest) => s!"ok rest={rest.length} re={showHex (encE d v)}"
+
+def tl2xObs (d : Desc) (t2 t1 : Bytes) : String :=
+  if !tl2Supported d then "bad-op tl2-unsupported-descriptor" else
+  match decE d t2, dec d [] t1 with
+  | some (v2, _), some (v1, _) => if v1 == v2 then "same" else "differ"
+  | _, _ => "err"
+
 def step (_ : Unit) (toks : List String) : Unit × List String :=
   match toks with
   | ["dec", key, form, hex] =>
+    match lookup key, parseHex? hex with
+    | some (tag, isU, d), some b =>
+      match formOf tag isU d form with
+      | some d' => ((), [decObs d' [] b])
+      | none => ((), ["bad-op"])
+    | _, _ => ((), ["bad-op"])
+  | ["decb", key, form, hex] =>
+    -- the []byte variant of the generated type: same descriptor, same codec (there is only one in the model)
     match lookup key, parseHex? hex with
     | some (tag, isU, d), some b =>
       match formOf tag isU d form with
@@ -105,6 +131,26 @@ def step (_ : Unit) (toks : List String) : Unit × List String :=
     match lookup key, lookupResult key, parseHex? hreq, parseHex? hres with
     | some (_, _, d), some rd, some req, some res => ((), [resObs d rd req res])
     | _, _, _, _ => ((), ["bad-op"])
+  | ["tl2", key, hex] =>
+    match lookup key, parseHex? hex with
+    | some (_, _, d), some b => ((), [tl2Obs d b])
+    | _, _ => ((), ["bad-op"])
+  | ["tl2n", key, hex] =>
+    match lookup key, parseHex? hex with
+    | some (_, _, d), some b =>
+      if !tl2Supported d then ((), ["bad-op tl2-unsupported-descriptor"]) else
+      match decE d b with
+      | none => ((), ["err"])
+      | some (_, rest) => ((), [s!"ok rest={rest.length}"])
+    | _, _ => ((), ["bad-op"])
+  | ["tl2b", key, hex] =>
+    match lookup key, parseHex? hex with
+    | some (_, _, d), some b => ((), [tl2Obs d b])
+    | _, _ => ((), ["bad-op"])
+  | ["tl2x", key, h2, h1] =>
+    match lookup key, parseHex? h2, parseHex? h1 with
+    | some (_, _, d), some t2, some t1 => ((), [tl2xObs d t2 t1])
+    | _, _, _ => ((), ["bad-op"])
   | ["tl2size", n, ht] =>
     match n.toNat?, parseHex? ht with
     | some n, some t => ((), [tl2sizeObs n t])
